@@ -167,6 +167,29 @@ def gen_hit_layout(rng, profiles, cutoffs, circular=None):
         for name, (s, e) in (("w0", (a, a + 300)), ("w1", (b - 300, b))):
             if 0 <= s < e <= length and not any(g["loc"]["parts"] == [[s, e]] for g in genes.values()):
                 genes[name] = {"loc": {"parts": [[s, e]], "strand": 1}}
+    # a gene of three or four exons with long introns, and a gene inside one of its introns at a boundary distance
+    # from an inner exon (far from the outer exons): distances are measured to the nearest exon
+    if rng.random() < 0.3 and len(genes) < 6:
+        n_exons = rng.choice([3, 3, 4])
+        introns = [rng.choice([cutoff + 700, 2 * cutoff + 400, 3 * cutoff]) for _ in range(n_exons - 1)]
+        span = 300 * n_exons + sum(introns)
+        if span + 200 <= length:
+            start = rng.randrange(0, (length - span) // 100 + 1) * 100
+            parts, pos = [], start
+            for k in range(n_exons):
+                parts.append([pos, pos + 300])
+                pos += 300 + (introns[k] if k < n_exons - 1 else 0)
+            genes["m0"] = {"loc": {"parts": parts, "strand": rng.choice([1, -1])}}
+            inner = rng.randrange(1, n_exons - 1) if n_exons > 3 else 1
+            gap = rng.choice([0, 1, cutoff - 1, cutoff, cutoff + 1, 100])
+            if rng.random() < 0.5:      # after the inner exon
+                s = parts[inner][1] + gap
+                fits = s + 200 <= parts[inner + 1][0]
+            else:                       # before it
+                s = parts[inner][0] - gap - 200
+                fits = s >= parts[inner - 1][1]
+            if fits and not any(g["loc"]["parts"] == [[s, s + 200]] for g in genes.values()):
+                genes["m1"] = {"loc": {"parts": [[s, s + 200]], "strand": rng.choice([1, -1])}}
     hits = {}
     for name in genes:
         hs = {p: rng.choice([5, 15, 25, 35, 10, 20, 30]) for p in profiles if rng.random() < 0.3}
